@@ -45,6 +45,7 @@ func runC01(p *core.Prog, r *core.Report) {
 	r.Guard("C01.R2", "cache-paths", "cache locations derive from the hash", func() { checkCachePaths(p, r, "C01.R2") })
 	r.Guard("C01.R3", "canSkipBlockSource", "block source skipped only when nobody needs it", func() { checkCanSkipBlockSource(p, r) })
 	checkSharedBitmaps(p, r, "C01.R4")
+	r.Guard("C01.R6", "job-stores", "stores a job starts from", func() { checkSubrequestStores(p, r, "C01.R6") })
 	r.Guard("C01.R6", "squash-base", "merge base", func() { checkSquashBase(p, r, "C01.R6") })
 	r.Guard("C01.R5", "execout.File.Load", "a failed load is never remembered as loaded", func() { checkExecoutLoadedFlag(p, r, "C01.R5") })
 	r.Guard("C01.R7", "visits-all", "no silent truncation", func() {
